@@ -148,22 +148,30 @@ Definition walk {A} (f : A -> A -> list entry) : list A -> list A -> stage :=
 Definition seq_stage (p k : stage) : stage :=
   if snd p then p else (fst p ++ fst k, snd k).
 
-Fixpoint diff_trees (o1 o2 : obj) {struct o1} : list entry :=
+(* [fx_name]: the tree with patches/fix-C16-name-unset.diff applied (a name
+   set on one side only is "too complex") *)
+Definition name_stage (fx_name : bool) (a1 a2 : oattr) : stage :=
+  if fx_name && negb (ostr_eqb (option_map (fun _ => EmptyString) (a_name a1)) (option_map (fun _ => EmptyString) (a_name a2)))
+  then ([], true) else (name_diff a1 a2, false).
+
+Fixpoint diff_trees_gen (fx_name : bool) (o1 o2 : obj) {struct o1} : list entry :=
   match o1, o2 with
   | Obj a1 c1 m1 i1 x1, Obj a2 c2 m2 i2 x2 =>
     let tc := [ETooComplex (a_depth a1) (a_lidx a1)] in
     if pre_differs a1 a2 then tc
     else
       let r :=
-        seq_stage (name_diff a1 a2, false)
+        seq_stage (name_stage fx_name a1 a2)
        (seq_stage (type_attr_diff a1 a2)
        (seq_stage (infos_diff (a_depth a1) (a_lidx a1) (a_infos a1) (a_infos a2))
-       (seq_stage (walk diff_trees c1 c2)
-       (seq_stage (walk diff_trees m1 m2)
-       (seq_stage (walk diff_trees i1 i2)
-                  (walk diff_trees x1 x2)))))) in
+       (seq_stage (walk (diff_trees_gen fx_name) c1 c2)
+       (seq_stage (walk (diff_trees_gen fx_name) m1 m2)
+       (seq_stage (walk (diff_trees_gen fx_name) i1 i2)
+                  (walk (diff_trees_gen fx_name) x1 x2)))))) in
       if snd r then fst r ++ tc else fst r
   end.
+(* the code as it is *)
+Definition diff_trees : obj -> obj -> list entry := diff_trees_gen false.
 
 (* ------------------------------------------------------------------ *)
 (* topology level                                                       *)
@@ -204,44 +212,47 @@ Fixpoint dists_differ (l1 l2 : list (bool * string)) : bool :=
 (* initiators: for (k = 0; k < imtg1->nr_initiators; k++) compare [k] of both
    sides; nr_initiators of the second side is never read.
    None = the loop reads imtg2->initiators[k] past its end *)
-Fixpoint inits_differ (l1 l2 : list string) : option bool :=
+Fixpoint inits_walk (l1 l2 : list string) : option bool :=
   match l1, l2 with
   | [], _ => Some false
-  | x :: r1, y :: r2 => if negb (String.eqb x y) then Some true else inits_differ r1 r2
+  | x :: r1, y :: r2 => if negb (String.eqb x y) then Some true else inits_walk r1 r2
   | _ :: _, [] => None
   end.
+(* [fx]: with patches/fix-C16-memattr-initiators.diff (nr_initiators compared first) *)
+Definition inits_differ (fx : bool) (l1 l2 : list string) : option bool :=
+  if fx && negb (Nat.eqb (List.length l1) (List.length l2)) then Some true else inits_walk l1 l2.
 
-Fixpoint targets_differ (need : bool) (l1 l2 : list mtarget) : option bool :=
+Fixpoint targets_differ (fx : bool) (need : bool) (l1 l2 : list mtarget) : option bool :=
   match l1, l2 with
   | t1 :: r1, t2 :: r2 =>
       if negb (String.eqb (mt_id t1) (mt_id t2)) then Some true
       else if need then
-        match inits_differ (mt_inits t1) (mt_inits t2) with
+        match inits_differ fx (mt_inits t1) (mt_inits t2) with
         | None => None
         | Some true => Some true
-        | Some false => targets_differ need r1 r2
+        | Some false => targets_differ fx need r1 r2
         end
       else if negb (String.eqb (mt_noinit t1) (mt_noinit t2)) then Some true
-      else targets_differ need r1 r2
+      else targets_differ fx need r1 r2
   | _, _ => Some false
   end.
 
 (* memattrs: i is the attribute id; CAPACITY and LOCALITY are virtual *)
-Fixpoint memattrs_differ (i : N) (l1 l2 : list mattr) : option bool :=
+Fixpoint memattrs_differ (fx : bool) (i : N) (l1 l2 : list mattr) : option bool :=
   match l1, l2 with
   | m1 :: r1, m2 :: r2 =>
       if negb (String.eqb (ma_hdr m1) (ma_hdr m2)) || negb (Bool.eqb (ma_need_init m1) (ma_need_init m2))
          || negb (Nat.eqb (List.length (ma_targets m1)) (List.length (ma_targets m2))) then Some true
-      else if (i =? HWLOC_MEMATTR_ID_CAPACITY) || (i =? HWLOC_MEMATTR_ID_LOCALITY) then memattrs_differ (i + 1) r1 r2
-      else match targets_differ (ma_need_init m1) (ma_targets m1) (ma_targets m2) with
+      else if (i =? HWLOC_MEMATTR_ID_CAPACITY) || (i =? HWLOC_MEMATTR_ID_LOCALITY) then memattrs_differ fx (i + 1) r1 r2
+      else match targets_differ fx (ma_need_init m1) (ma_targets m1) (ma_targets m2) with
            | None => None
            | Some true => Some true
-           | Some false => memattrs_differ (i + 1) r1 r2
+           | Some false => memattrs_differ fx (i + 1) r1 r2
            end
   | _, _ => Some false
   end.
-Definition memattrs_cmp (l1 l2 : list mattr) : option bool :=
-  if negb (Nat.eqb (List.length l1) (List.length l2)) then Some true else memattrs_differ 0 l1 l2.
+Definition memattrs_cmp (fx : bool) (l1 l2 : list mattr) : option bool :=
+  if negb (Nat.eqb (List.length l1) (List.length l2)) then Some true else memattrs_differ fx 0 l1 l2.
 
 Fixpoint strs_eqb (l1 l2 : list string) : bool :=
   match l1, l2 with
@@ -253,11 +264,11 @@ Fixpoint strs_eqb (l1 l2 : list string) : bool :=
 Inductive bres := BRet (rc : Z) (d : list entry) | BOverread.
 
 (* hwloc_topology_diff_build.  flags != 0 -> -1 (EINVAL, *diffp untouched: modelled as []) *)
-Definition diff_build (flags : N) (T1 T2 : topo) : bres :=
+Definition diff_build_gen (fx_name fx_mattr : bool) (flags : N) (T1 T2 : topo) : bres :=
   if negb (flags =? 0) then BRet (-1) []
   else
     let r1 := t_root T1 in
-    let d := diff_trees r1 (t_root T2) in
+    let d := diff_trees_gen fx_name r1 (t_root T2) in
     let root_tc := [ETooComplex (a_depth (oa r1)) (a_lidx (oa r1))] in
     if has_tc d then BRet 1 d
     else if negb (ostr_eqb (t_allowed_cpuset T1) (t_allowed_cpuset T2))
@@ -267,13 +278,15 @@ Definition diff_build (flags : N) (T1 T2 : topo) : bres :=
       let '(ti, tctc) := infos_diff (t_nbl T1) 0 (t_infos T1) (t_infos T2) in
       if tctc then BRet 1 (d ++ ti ++ root_tc)
       else if dists_differ (t_dists T1) (t_dists T2) then BRet 1 (d ++ ti ++ root_tc)
-      else match memattrs_cmp (t_memattrs T1) (t_memattrs T2) with
+      else match memattrs_cmp fx_mattr (t_memattrs T1) (t_memattrs T2) with
            | None => BOverread
            | Some true => BRet 1 (d ++ ti ++ root_tc)
            | Some false =>
                if negb (strs_eqb (t_cpukinds T1) (t_cpukinds T2)) then BRet 1 (d ++ ti ++ root_tc)
                else BRet 0 (d ++ ti)
            end.
+(* the code as it is *)
+Definition diff_build : N -> topo -> topo -> bres := diff_build_gen false false.
 
 (* ------------------------------------------------------------------ *)
 (* level arrays and parent chains                                       *)
@@ -507,11 +520,15 @@ Definition erase_attr (a : oattr) : oattr :=
 Definition erase (o : obj) : obj := tmap erase_attr o.
 
 (* additionally what a diff can carry: name, info values, local memory *)
-Definition skel_attr (a : oattr) : oattr :=
-  mkA (a_depth a) 0 (a_type a) (a_subtype a) (a_os_index a) (a_sets a) None
+Definition skel_attr_gen (fx_name : bool) (a : oattr) : oattr :=
+  mkA (a_depth a) 0 (a_type a) (a_subtype a) (a_os_index a) (a_sets a)
+      (if fx_name then option_map (fun _ => EmptyString) (a_name a) else None)
       (if is_memcmp_type (a_type a) then a_tattr a else EmptyString) 0 0
       (map (fun p => (fst p, EmptyString)) (a_infos a)).
+Definition skel_attr : oattr -> oattr := skel_attr_gen false.
 Definition skel (o : obj) : obj := tmap skel_attr o.
+(* with patches/fix-C16-name-unset.diff: whether a name is set belongs to the skeleton *)
+Definition skel_fixed (o : obj) : obj := tmap (skel_attr_gen true) o.
 
 (* slot an entry reads and writes, for a topology with [nbl] levels: entries
    at depth nb_levels address the topology infos whatever their index *)
